@@ -175,7 +175,9 @@ CHECKS = {
         "list-mutation semantics) equals the real code on OpenCV's actual contour lists (all dictionaries, flags, exception kinds, exactly); "
         "the pipeline Skeleton -> create_lattice -> generate_mesh -> Frame gives one cell per enclosed region, border flags, internal "
         "interfaces (against a pixel-level raster oracle, itself modelled twice, and the generating Voronoi topology), consistent meshes at "
-        "every stage, and the same answer under the 8 symmetries of the square, padding, frame and mirror_y. That cv2.findContours yields one "
+        "every stage, and the same answer under the 8 symmetries of the square, padding, frame and mirror_y; shipped skeletons: tests/data/test_nonzero.tif "
+        "and examples/data/in_vivo/t_0..t_4.tif (for the latter, region pairs whose common boundary is shorter than four pixels are optional); a second "
+        "lattice from the same reader is checked too. That cv2.findContours yields one "
         "hole contour per enclosed region is a digital-topology statement about OpenCV and is not proved: hence 'other', not 'proof'.",
    design_ref="DESIGN.md §7 C15",
    technique="Lean 4 theorems over the contour-list model of Skeleton.create_lattice + exact differential check on OpenCV's contours + raster-oracle/metamorphic check of the pipeline",
